@@ -237,3 +237,91 @@ def save_replay(pid, name, files):
     for k, v in files.items():
         open(os.path.join(d, k), "w").write(v)
     return d
+
+
+# ------------------------------------------------------------------------------------------ generic pipeline helpers
+
+def hists_from_tlc(outfile, maximal, siblings=2):
+    """Histories printed by TLC as <<"SCRIPT", json>>. maximal: drop proper prefixes (BFS output);
+    otherwise keep at most `siblings` histories per parent (simulation prints every candidate last step)."""
+    seen, hists = set(), []
+    for s in tlc_file_prints(outfile, "SCRIPT"):
+        if s not in seen:
+            seen.add(s)
+            hists.append(json.loads(s))
+    if maximal:
+        haschild = set(json.dumps(h[:-1], sort_keys=True) for h in hists if h)
+        return [h for h in hists if h and json.dumps(h, sort_keys=True) not in haschild]
+    bypar = {}
+    for h in hists:
+        bypar.setdefault(json.dumps(h[:-1], sort_keys=True), []).append(h)
+    return [h for v in bypar.values() for h in v[:siblings]]
+
+
+def cex_hist(path):
+    """History variable of the last state of a TLC counterexample dumped with -dumpTrace json."""
+    if not os.path.exists(path):
+        return None
+    try:
+        d = json.load(open(path))
+        d = d.get("counterexample", d)
+        last = d["state"][-1]
+        last = last[1] if isinstance(last, list) else last
+        return last.get("hist")
+    except Exception as e:
+        sys.stderr.write("counterexample parse failed (%s): %s\n" % (path, e))
+        return None
+
+
+def validate_chunks(scratch, trace, module, is_reset, par=16, min_chunk=2500, tag="tv"):
+    """Trace validation: cut the trace at script boundaries and let parallel TLC processes evaluate the
+    clauses of <module>.tla on every event; merge the verdicts."""
+    from concurrent.futures import ThreadPoolExecutor
+    lines = open(trace).readlines()
+    chunks, cur = [], []
+    target = max(min_chunk, len(lines) // par + 1)
+    for ln in lines:
+        if is_reset(ln) and len(cur) >= target:
+            chunks.append(cur)
+            cur = []
+        cur.append(ln)
+    if cur:
+        chunks.append(cur)
+
+    def one(ic):
+        i, c = ic
+        t = "%s-%d" % (tag, i)
+        wd = scratch.sub("tlc-" + t)
+        with open(os.path.join(wd, "trace.ndjson"), "w") as f:
+            f.writelines(c)
+        r = tlc(scratch, module, module + ".cfg", workers=1, timeout=3600, tag=t, jvm=("-Xmx2g", "-XX:ParallelGCThreads=2"))
+        v = tlc_prints(r["out"], "VERDICT")
+        shutil.rmtree(wd, ignore_errors=True)
+        if not v:
+            raise Infra("trace validation (%s) gave no verdict:\n%s" % (module, r["out"][-3000:]))
+        return json.loads(v[0])
+    t0 = time.time()
+    with ThreadPoolExecutor(max_workers=par) as ex:
+        res = list(ex.map(one, enumerate(chunks)))
+    d = {"n": 0, "bad": [], "cnt": {}}
+    for r in res:
+        d["n"] += r["n"]
+        d["bad"] += r["bad"]
+        for k, c in r["cnt"].items():
+            d["cnt"][k] = d["cnt"].get(k, 0) + c
+    d["wall"] = time.time() - t0
+    return d
+
+
+def known_match(kf, pid, rec):
+    """A violation record matches an open known finding when property, clause and tag agree."""
+    for f in kf:
+        if f.get("status") != "open" or f.get("property") != pid:
+            continue
+        sig = f.get("signature", {})
+        if sig.get("clause") and sig["clause"] not in rec["ids"]:
+            continue
+        if sig.get("tag") and sig["tag"] not in rec.get("tags", []):
+            continue
+        return f
+    return None
